@@ -62,6 +62,35 @@ let run_msg (conn : send_conn) (w0 : world) (kv : (string * string) list) : send
   let body = list_of_hex (g "prefix") @ payload (int_of_string (g "pay")) (int_of_string (g "seed")) in
   let m = { msg_typ = typ; msg_flags = n_of_int (int_of_string (g "flags")); msg_dyn = dh preset; msg_bo = bo;
             msg_body = body; msg_raw_fds = List.init nfds n_of_int } in
+  let parse_ds c =
+    List.map (fun d ->
+      if d = "e" then WKernel KAgain else if d = "t" then WTimedOut
+      else WKernel (KAccept (n_of_int (int_of_string (String.sub d 1 (String.length d - 1))))))
+      (List.filter (fun s -> s <> "") (String.split_on_char ',' (String.sub c 1 (String.length c - 1)))) in
+  if (try List.assoc "api" kv = "wall" with Not_found -> false) then begin
+    (* the public wrapper: send_message_write_all(msg) with the decisions of its write_all loop *)
+    let ds = match List.filter (fun s -> s <> "") (String.split_on_char ';' (g "calls")) with
+      | [c] when c.[0] = 'W' -> parse_ds c | _ -> [] in
+    let ((c', w'), r) = send_message_write_all (fun _ -> fields) conn m w0 ds in
+    let rec drop n l = if n = 0 then l else match l with [] -> [] | _ :: t -> drop (n - 1) t in
+    let wire_new = drop (List.length w0.wire) w'.wire in
+    let fds_new = drop (List.length w0.fds_delivered) w'.fds_delivered in
+    let hb = c'.header_buf in
+    let total = List.length hb + List.length body in
+    (* the same through send_message + write, as the theorem C10_send_message_write_all unfolds it *)
+    let closed = match send_message (fun _ -> fields) conn m with
+      | Ok (_, Some x0) -> let ((_, w2), r2) = write x0 w0 ds in w2.wire = w'.wire && w2.fds_delivered = w'.fds_delivered && r2 = r
+      | _ -> false in
+    match r with
+    | Ok s ->
+        (c', w', Printf.sprintf
+          "serial=%d senderr=0 total=%d hdr=%s bodycrc=%d trace=W:ok@%d wire_len=%d wire_crc=%d fds=%s completed=1 wire_serial=%s sum=%d closed=%d"
+          (int_of_n s) total (hex_of_list hb) (crc32 body) (List.length wire_new) (List.length wire_new) (crc32 wire_new)
+          (if fds_new = [] then "-" else String.concat "." (List.map (fun f -> string_of_int (int_of_n f)) fds_new))
+          (match wire_serial hb with Some s -> string_of_int (int_of_n s) | None -> "-")
+          (List.length wire_new) (if closed then 1 else 0))
+    | o -> (c', w', "serial=- senderr=" ^ status o)
+  end else
   match send_message (fun _ -> fields) conn m with
   | Ok (conn', None) -> (conn', w0, "serial=- senderr=1")
   | Ok (conn', Some x0) ->
